@@ -190,6 +190,8 @@ def correspondence(ctx):
         paths.append(p)
         metas.append((p, name, seed, ops))
     probe_mixed_blocks(ctx, nsgenv, WL, WR)
+    from props import dynprobe
+    dynprobe.run(ctx, "C13")
     res = CK.run_case_files(ctx, paths, timeout=1500)
     disagreements = 0
     total_ops = 0
